@@ -391,6 +391,6 @@ func TestVerif_C12(t *testing.T) {
 		Seeds: vc12Seeds, Gen: vc12Gen, Exec: vc12Exec, Budget: vc12Budget, Witnesses: vc12Witnesses,
 		CoqImports: []string{"YF.C12_Check"}, CoqType: "meta_case",
 		CoqChecker: func(f map[string]bool) string { return "(check_meta " + vh.CoqBool(f["g_meta_u64"]) + ")" },
-		CoqCase:    vc12CoqCase, MaxCoq: 1500,
+		CoqCase:    vc12CoqCase, MaxCoq: 500,
 	})
 }
